@@ -1012,5 +1012,15 @@ pub async fn drive(case: &Case) -> Outcome {
     drop(l);
     pump.abort();
     listeners.shutdown();
+    // The stack does not free everything a connection held when the runtime goes away (reference cycles between a
+    // connection's components keep the exporter and the I/O objects alive): what the simulator handed to it is emptied
+    // here, so that a batch of 10^5 runs keeps a flat memory profile instead of growing by megabytes per run.
+    captured.client.lock().unwrap().clear();
+    captured.client.lock().unwrap().shrink_to_fit();
+    captured.server.lock().unwrap().clear();
+    captured.server.lock().unwrap().shrink_to_fit();
+    legacy_store.files.lock().unwrap().clear();
+    net.release_memory();
+    ctx.log.lock().unwrap().release_memory();
     out
 }
